@@ -4,7 +4,13 @@ Every problem found is tagged with the property it belongs to; cXX.py keeps the
 ones of its own property.  Three levels:
   GS  classify.find_stable_matching on arbitrary bipartite graphs,
   MS  classify.match_storms on float arrays,
-  CL  `spowtd load` + `spowtd classify` through the CLI, tables vs model.
+  CL  `spowtd load` + `spowtd classify` through the CLI, tables vs model:
+      per stretch (match_storms_data on the data of one gap-free stretch) and, since the command-level
+      theorems (Proofs/ClassifyCommandSpec.v), the WHOLE command: `classify_command` (Model/ClassifyCommand.v)
+      evaluated inside Coq on the stretches read from the database against the full contents of thresholds,
+      grid_time_flags, storm, zeta_interval and zeta_interval_storm as sets of rows, or against the kind of
+      exception when classify fails; `loaded_ok` (the structure of a loaded dataset that the theorems assume)
+      is evaluated on the same stretches.
 """
 import contextlib
 import copy
@@ -19,7 +25,9 @@ from harness import dataset as D
 from harness import gen_classify as G
 
 PRE = 'From Spowtd Require Import Model.ClassifyData Model.DepthView.\nFrom Coq Require Import Qabs.\nClose Scope Q_scope.\n'
+PRE_CMD = 'From Spowtd Require Import Model.ClassifyCommand.\n'
 KNOWN_DUR = 'C02/duration-off-by-one'
+CMD_CAP = 400          # samples of a dataset sent to Coq as one whole-command case (field records are too slow)
 
 
 # ------------------------------------------------------------------ the classify command, at every verbosity
@@ -394,8 +402,207 @@ def read_matching(db):
     return storms, zi, zis, depth, rainrows, thr
 
 
+
+# ------------------------------------------------------------------ CL level: the whole command
+
+ITYPE = {'storm': 'TStorm', 'interstorm': 'TInterstorm'}
+
+
+def read_command_tables(db):
+    """Full contents of the five tables the command writes."""
+    con = sqlite3.connect(db)
+    try:
+        return dict(
+            thresholds=con.execute('SELECT storm_rain_threshold_mm_h, rising_jump_threshold_mm_h FROM thresholds').fetchall(),
+            flags=con.execute('SELECT start_epoch, is_jump, is_mystery_jump, is_interstorm FROM grid_time_flags').fetchall(),
+            storm=con.execute('SELECT start_epoch, thru_epoch FROM storm').fetchall(),
+            zi=con.execute('SELECT start_epoch, interval_type, thru_epoch FROM zeta_interval').fetchall(),
+            link=con.execute('SELECT interval_start_epoch, interval_type, storm_start_epoch FROM zeta_interval_storm').fetchall())
+    finally:
+        con.close()
+
+
+def command_rows_lit(t):
+    """The tables as a Coq `command_rows`; None when a row cannot be written in the model's types."""
+    if any(r[1] not in ITYPE for r in t['zi'] + t['link']) or any(v is None for r in t['thresholds'] for v in r) \
+            or any(x not in (0, 1) for r in t['flags'] for x in r[1:]):
+        return None
+    trip = lambda rows: C.clist(['(%s, %s, %s)' % (C.cZ(a), ITYPE[ty], C.cZ(b)) for a, ty, b in rows])   # noqa: E731
+    return ('{| c_thresholds := %s; c_flags := %s; c_storm := %s; c_zeta_interval := %s; c_link := %s |}' % (
+        C.clist(['(%s, %s)' % (C.cfloat(a), C.cfloat(b)) for a, b in t['thresholds']]),
+        C.clist(['(%s, (%s, %s, %s))' % (C.cZ(e), C.cbool(bool(a)), C.cbool(bool(b)), C.cbool(bool(c)))
+                 for e, a, b, c in t['flags']]),
+        C.clist(['(%s, %s)' % (C.cZ(a), C.cZ(b)) for a, b in t['storm']]), trip(t['zi']), trip(t['link'])))
+
+
+def stretch_lit(s):
+    return 'mkStretch %s %s %s %s' % (C.cZ(s['label']), C.cZs(s['epoch']), C.cfloats(s['rain']), C.cfloats(s['zeta']))
+
+
+def py_loaded_ok(step, st):
+    """`loaded_ok` of Model/ClassifyCommand.v, re-evaluated here only to word the message."""
+    if step <= 0:
+        return 'time step %s is not positive' % step
+    for s in st:
+        ep = s['epoch']
+        if any(b != a + step for a, b in zip(ep, ep[1:])):
+            return 'epochs of stretch %s are not one step apart: %s' % (s['label'], ep)
+        if len(s['rain']) != len(ep) or len(s['zeta']) != len(ep):
+            return 'stretch %s: %d epochs, %d rain values, %d levels' % (s['label'], len(ep), len(s['rain']), len(s['zeta']))
+    allep = [e for s in st for e in s['epoch']]
+    if any(b <= a for a, b in zip(allep, allep[1:])):
+        return 'epochs of the stretches taken in label order are not increasing'
+    labels = [s['label'] for s in st]
+    if any(b <= a for a, b in zip(labels, labels[1:])):
+        return 'labels not increasing: %s' % labels
+    return None
+
+
+class CommandBatch:
+    """Whole-command cases: one per dataset, (step, thresholds, stretches, tables | error kind)."""
+
+    TY = 'Z * float * float * list stretch * res command_rows'
+
+    def __init__(self):
+        self.exact, self.exact_meta, self.ties, self.ties_meta = [], [], [], []
+
+    def add(self, db, thr_s, thr_j, exc, case, out, note=''):
+        st, step = D.stretches(db)
+        nsamp = sum(len(s['epoch']) for s in st)
+        if nsamp > CMD_CAP:
+            out.count('command:too-big-for-coq(skipped)')
+            return
+        why = py_loaded_ok(step, st)
+        if why:
+            out.violation('corr', 'whole command: a dataset that loads lacks the structure the command-level theorems '
+                          'assume (loaded_ok): %s' % why, case=case)
+        if exc is None:
+            tabs = read_command_tables(db)
+            lit = command_rows_lit(tabs)
+            if lit is None:
+                out.violation('corr', 'whole command: tables hold a row outside the model\'s types (interval type / NULL '
+                              'threshold / non-boolean flag): %s' % str(tabs)[:400], case=case)
+                return
+            impl = '(Ok %s)' % lit
+        else:
+            impl = '(Err %s)' % C.err_of(exc)
+            out.count('command:classify-raised-' + type(exc).__name__)
+        delta = thr_j * (step / 3600.0)
+        tie = any(rise_ties(*flags_of(s['rain'], s['zeta'], thr_s, delta)) for s in st if s['epoch'])
+        line = '(%s, %s, %s, %s, %s)' % (C.cZ(step), C.cfloat(thr_s), C.cfloat(thr_j),
+                                         C.clist([stretch_lit(s) for s in st]), impl)
+        meta = dict(case=case, note=note, step=step, impl=impl[:60])
+        if tie:
+            self.ties.append(line)
+            self.ties_meta.append(meta)
+            out.count('command:ties(flags and interstorm rows compared)')
+        else:
+            self.exact.append(line)
+            self.exact_meta.append(meta)
+            out.count('command:all-tables-compared')
+        # what the theorems are about: several stretches, stretches one step apart, a storm to the end of a stretch
+        live = [s for s in st if s['epoch']]
+        out.count('command:stretches=%s' % (len(live) if len(live) < 4 else '4+'))
+        if any(not s['epoch'] for s in st):
+            out.count('command:empty-stretch(closing instant only)')
+        if any(len(s['epoch']) == 1 for s in st):
+            out.count('command:single-sample-stretch')
+        if any(b['epoch'][0] - a['epoch'][-1] == step for a, b in zip(live, live[1:])):
+            out.count('command:stretches-exactly-one-step-apart')
+        if exc is None:
+            ends = {s['epoch'][-1] + step for s in live}
+            if any(b in ends for _, b in tabs['storm']):
+                out.count('command:storm-closing-at-end-of-stretch')
+            if len(live) >= 2 and tabs['link']:
+                out.nontriv(('command', str(sorted(tabs['link']))[:200], len(live)))
+
+    def run(self, prop, label, out):
+        for lines, metas, fn, what in (
+                (self.exact, self.exact_meta, 'command_case',
+                 'thresholds, grid_time_flags, storm, zeta_interval, zeta_interval_storm as sets of rows, 3 schedules'),
+                (self.ties, self.ties_meta, 'command_case_ties',
+                 'thresholds, grid_time_flags and interstorm rows; ties make the pairs depend on the pop order')):
+            bad, errs, _ = C.run_case_shards(prop, label + '_' + fn, PRE_CMD, self.TY, fn, lines, shard=60)
+            out.corr_errors += errs
+            for i in bad:
+                m = metas[i]
+                out.violation('corr', 'whole command: model classify_command <> what `spowtd classify` left in the '
+                              'database (%s; implementation: %s%s)' % (what, m['impl'], m['note']), case=m['case'])
+
+
+# ------------------------------------------------------------------ boundary probes of the command (C01)
+
+PROBE_T0 = 1361318400
+_GRID_LEVELS = [0.0, 0.0, 10.0, 20.0, 30.0, 29.0, 28.0, 27.0, 26.0]
+PROBES = {
+    # water level every 20 min on an hourly grid, one reading missing (T0+8400): stretch 1 = grid instants 0..2,
+    # stretch 2 = grid instants 3.. , exactly ONE step apart; the storm of stretch 1 runs to its last sample and
+    # closes at T0+10800, the instant at which stretch 2 begins in a storm (two storm rows contiguous in time)
+    'stretches-one-step-apart': dict(
+        rain=[(PROBE_T0 + 3600 * k, v) for k, v in enumerate([0.0, 9.0, 9.0, 9.0, 0.5, 0.0, 0.0, 0.0])],
+        wl=[(PROBE_T0 + 1200 * j, _GRID_LEVELS[j // 3] + (j % 3) / 3.0 * (_GRID_LEVELS[min(8, j // 3 + 1)] - _GRID_LEVELS[j // 3]))
+            for j in range(25) if j != 7], thr=(4.0, 1.0), sig=None),
+    # the water level resumes exactly at the closing instant of the grid: the only data interval with a grid
+    # instant holds that instant alone (no rainfall step, no level): classify commits the thresholds row only
+    'closing-instant-only': dict(
+        rain=[(PROBE_T0 + 1000 * k, 0.0) for k in range(1, 5)],
+        wl=[(PROBE_T0 + t, 1.0) for t in (0, 100, 200, 5000, 5100, 5200)], thr=(4.0, 8.0), sig=None),
+    # rainfall hourly-ish inside an outage of the water level: every data interval is empty, no grid instant is
+    # labelled; `load` accepts, `classify` raises ValueError('No valid data intervals found')
+    'no-data-interval': dict(
+        rain=[(PROBE_T0 + 1000 * k, 0.0) for k in range(1, 5)],
+        wl=[(PROBE_T0 + t, 1.0) for t in (0, 100, 200, 5001, 5101, 5201)], thr=(4.0, 8.0), sig='C01/no-data-interval'),
+    # a water level that SQLite reads as +Inf: `load` accepts, `classify` fails `assert np.isfinite(zeta_mm).all()`
+    'infinite-level': dict(
+        rain=[(PROBE_T0 + 3600 * k, 0.0) for k in range(6)],
+        wl=[(PROBE_T0 + 3600 * k, '1e999' if k == 2 else 1.0) for k in range(7)], thr=(4.0, 8.0), sig='C01/infinite-level'),
+    # a NaN threshold (outside the property: "positive finite thresholds"): sqlite3 binds NaN as NULL, NOT NULL fails
+    'nan-threshold': dict(
+        rain=[(PROBE_T0 + 3600 * k, 0.0) for k in range(6)],
+        wl=[(PROBE_T0 + 3600 * k, 1.0) for k in range(7)], thr=(float('nan'), 8.0), sig=None),
+}
+
+
+def _listed(signature):
+    import json
+    import os
+    try:
+        return any(k.get('signature') == signature
+                   for k in json.load(open(os.path.join(C.VERIF, 'known_findings.json'))).get('findings', []))
+    except (OSError, ValueError):
+        return False
+
+
+def command_probes(out, prop, label='probe', names=None):
+    """Datasets at the edge of C01's quantifier ("every dataset that loads"): the model's refusals
+    (Err EValue / EAssert / EIntegrity, theorems C01_command_no_interval, Example C01_command_refusals) against the
+    exception the real command raises.  The two datasets that load and on which classify then fails are reported
+    as oracle violations only once the lead lists their signature in known_findings.json (notes/C01.md)."""
+    cmd = CommandBatch()
+    for name in (names or sorted(PROBES)):
+        pr = PROBES[name]
+        step = pr['rain'][1][0] - pr['rain'][0][0]
+        et = [(t, 0.1) for t, _ in pr['rain']] + [(pr['rain'][-1][0] + step, 0.1)]
+        d = D.scratch(prop, 'probe_db')
+        db, rc, exc = D.load(D.Dataset(pr['rain'], et, pr['wl']), d)
+        out.evaluations += 1
+        case = dict(level='probe', name=name)
+        if exc is not None:
+            out.count('boundary:%s:load-refused' % name)
+            continue
+        with logging_restored():
+            rc, exc, _ = D.cli(['classify', db, '-s', repr(pr['thr'][0]), '-j', repr(pr['thr'][1])])
+        out.count('boundary:%s:%s' % (name, type(exc).__name__ if exc is not None else 'classified'))
+        cmd.add(db, pr['thr'][0], pr['thr'][1], exc, case, out, note='; boundary probe ' + name)
+        if exc is not None and pr['sig'] and _listed(pr['sig']):
+            out.violation('oracle', 'the dataset of boundary probe %s loads, and classify fails with %s: %s'
+                          % (name, type(exc).__name__, exc), case=case, signature=pr['sig'])
+    cmd.run(prop, label, out)
+
+
 def check_cl(recs, out, keep, prop, label):
     batch = MSBatch()
+    cmd = CommandBatch()
     depth_cases, depth_meta = [], []
     for k, rec in enumerate(recs):
         rec = with_verbosity(rec, k)
@@ -411,6 +618,7 @@ def check_cl(recs, out, keep, prop, label):
             out.count('CL-load-refused')
             continue
         rc, exc, _ = classify_cli(db, rec, out)
+        cmd.add(db, rec['thr_s'], rec['thr_j'], exc, case, out)
         if exc is not None:
             if 'C01' in keep:
                 out.violation('oracle', 'classify failed with %s: %s on a dataset that loads (class %s, '
@@ -475,6 +683,7 @@ def check_cl(recs, out, keep, prop, label):
         if stray and 'C03' in keep:
             out.violation('oracle', 'rise rows %s are not paired with a storm' % stray, case=case)
     batch.run(prop, label, out)
+    cmd.run(prop, label, out)
     if depth_cases:
         bad, errs, _ = C.run_case_shards(
             prop, label + '_depth', PRE, 'Z * Z * list rain_row * Q',
@@ -495,5 +704,7 @@ def replay_case(case, out, keep, prop):
     elif case['level'] == 'MS':
         rec = dict(cls='replay', rain=case['rain'], zeta=case['head'], thr_s=case['thr_s'], thr_j=case['delta'], step=3600)
         check_ms([rec], out, keep, prop, 'replay')
+    elif case['level'] == 'probe':
+        command_probes(out, prop, 'replay', [case['name']])
     else:
         check_cl([case['rec']], out, keep, prop, 'replay')
